@@ -108,7 +108,15 @@ func crashTemplates(r *core.Rand) []*crashHist {
 		&proto.Stmt{Kind: "delete", Table: "big", Where: model.Cmp("=", model.ColOp("g"), model.LitOp(intv(3)))},
 		kgInsert("big", 1140, 20), kgInsert("big", 1160, 10), kgInsert("big", 1170, 30),
 		&proto.Stmt{Kind: "update", Table: "big", Sets: []proto.SetItem{{Col: "s", Val: proto.Str("after-split")}}, Where: model.Cmp(">=", model.ColOp("k"), model.LitOp(intv(1150)))},
-		kgTable("side"), kgInsert("side", 0, 9), kgInsert("big", 1200, 100))
+		kgTable("side"), kgInsert("side", 0, 9), kgInsert("big", 1200, 100),
+		// on the three-level tree: single rows among the newest are deleted
+		// while they sit in the right-most leaf, later inserts fill and split
+		// that leaf (the tombstone has to move with its cell: recovery walks
+		// every insert since the last change of the top root down the tree
+		// again and must find the key there, deleted or not)
+		&proto.Stmt{Kind: "delete", Table: "big", Where: kEq(1298)}, kgInsert("big", 1300, 7),
+		&proto.Stmt{Kind: "delete", Table: "big", Where: kEq(1304)}, kgInsert("big", 1307, 9),
+		&proto.Stmt{Kind: "delete", Table: "big", Where: kEq(1313)}, kgInsert("big", 1316, 11))
 	// T9: one statement that changes well over a thousand pages, with the real
 	// timer: the tick that follows it has a lot to write, the crash comes
 	// after that tick (and after one more small statement)
